@@ -3,7 +3,7 @@
 \* program) and leaves the program untouched - whatever the same translator object translated before.
 \* Translator objects: "A" - one reused object of the program's language; "B" - one reused object of another language;
 \* "F" - a fresh object of the program's language for every call.  Programs: p generated, e = erased p, w = overwritten e,
-\* q another generated program.  Text and Snap are what was observed (opaque digests).
+\* q another generated program (generated under wider limits: functions with up to five parameters).  Text and Snap are what was observed (opaque digests).
 EXTENDS Naturals, Sequences, FiniteSets, TLC, Json
 
 CONSTANT MaxLen
@@ -13,36 +13,48 @@ Lang(tr) == IF tr = "B" THEN "other" ELSE "own"
 \* A program object may also be mutated *in place* between translations (the driver's pipeline applies the mutations to the
 \* same object): ver[prog] counts these mutations (1st: type erasure, 2nd: type overwriting); a new version is a new program.
 
+\* The driver re-targets a live translator (`translator.package = ...` for the incorrect program of an iteration):
+\* pkg[tr] is the package a reused translator object currently carries; a fresh object is constructed with A's current one.
+Packages == {"x", "y"}
 VARIABLES hist,      \* the calls so far
           text,      \* Key |-> the text observed for it first
           ver,       \* program |-> number of in-place mutations so far
+          pkg,       \* reused translator object |-> its current package
           done
-Key(tr, prog) == <<Lang(tr), prog, ver[prog]>>          \* package and options are fixed per run
-Init == hist = <<>> /\ text = [k \in {} |-> ""] /\ ver = [q \in Programs |-> 0] /\ done = FALSE
+PkgOf(tr) == IF tr = "F" THEN pkg["A"] ELSE pkg[tr]
+Key(tr, prog) == <<Lang(tr), PkgOf(tr), prog, ver[prog]>>          \* options are fixed per run
+Init == hist = <<>> /\ text = [k \in {} |-> ""] /\ ver = [q \in Programs |-> 0] /\ pkg = [tr \in {"A", "B"} |-> "x"] /\ done = FALSE
 
 \* Translate(tr, prog) observing text digest d (d = "" : the call raised) and program snapshots before / after
 Translate(tr, prog, d) ==
   /\ hist' = Append(hist, [op |-> "tr", tr |-> tr, prog |-> prog])
   /\ text' = IF d # "" /\ Key(tr, prog) \notin DOMAIN text
              THEN [k \in DOMAIN text \cup {Key(tr, prog)} |-> IF k = Key(tr, prog) THEN d ELSE text[k]] ELSE text
-  /\ UNCHANGED <<done, ver>>
+  /\ UNCHANGED <<done, ver, pkg>>
+SetPackage(tr, pk) ==
+  /\ tr \in {"A", "B"} /\ pkg[tr] # pk
+  /\ hist' = Append(hist, [op |-> "pkg", tr |-> tr, prog |-> pk])
+  /\ pkg' = [pkg EXCEPT ![tr] = pk]
+  /\ UNCHANGED <<text, ver, done>>
 MutateInPlace(prog) ==
   /\ ver[prog] < 2
   /\ hist' = Append(hist, [op |-> "mut", tr |-> "-", prog |-> prog])
   /\ ver' = [ver EXCEPT ![prog] = @ + 1]
-  /\ UNCHANGED <<text, done>>
+  /\ UNCHANGED <<text, done, pkg>>
 \* the property, per call
 Functional(tr, prog, d) == (d # "" /\ Key(tr, prog) \in DOMAIN text) => text[Key(tr, prog)] = d
 ProgUnchanged(before, after) == before = after
 
 \* ---- G: call histories (exhaustive up to MaxLen, or random with -simulate) -----------------------------------------------
-Finish == /\ Len(hist) >= 1 /\ ~done /\ done' = TRUE /\ UNCHANGED <<hist, text, ver>> /\ PrintT(ToJson(hist))
+Finish == /\ Len(hist) >= 1 /\ ~done /\ done' = TRUE /\ UNCHANGED <<hist, text, ver, pkg>> /\ PrintT(ToJson(hist))
 GNext == \/ /\ Len(hist) < MaxLen /\ ~done
             /\ \/ \E tr \in Translators, prog \in Programs : Translate(tr, prog, "x")
                \/ \E prog \in {"p", "q"} : MutateInPlace(prog)
+               \/ \E tr \in {"A", "B"}, pk \in Packages : SetPackage(tr, pk)
          \/ Finish
 GNextSim == \/ /\ Len(hist) < MaxLen /\ ~done
                /\ \/ \E tr \in Translators, prog \in Programs : Translate(tr, prog, "x")
                   \/ \E prog \in {"p", "q"} : MutateInPlace(prog)
+                  \/ \E tr \in {"A", "B"}, pk \in Packages : SetPackage(tr, pk)
             \/ (Len(hist) = MaxLen /\ Finish)
 =============================================================================
